@@ -61,6 +61,14 @@ def build():
             rec["grad"] = expand_derivatives(ufl.grad(e))
         except Exception as ex:
             rec["grad_error"] = "%s: %s" % (type(ex).__name__, str(ex)[:200])
+        # variable ruleset: d/dv op(v, v*v) for a scalar variable v = variable(f)   (chain rule through both operands)
+        try:
+            v = ufl.variable(f)
+            ev = mk(v) if ar == 1 else mk(v, v * v)
+            rec["variable"] = expand_derivatives(ufl.diff(ev, v))
+            rec["keep2"] = (v, ev)
+        except Exception as ex:
+            rec["variable_error"] = "%s: %s" % (type(ex).__name__, str(ex)[:200])
         out.append(rec)
     return out
 
@@ -71,7 +79,7 @@ def render():
              L.header("derivrules.py", "Derivative rules of the real code: expand_derivatives(derivative(op(f,g),(f,g),(df,dg))) and expand_derivatives(grad(op(f,g))) for scalar coefficient operands."),
              "namespace UflVerif.Gen.DerivRules\nopen UflVerif Expr\n",
              "structure Rule where\n  name : String\n  arity : Nat\n  out : Expr\n"]
-    for fam in ("gateaux", "grad"):
+    for fam in ("gateaux", "grad", "variable"):
         ents = []
         for r in recs:
             if fam not in r:
@@ -79,6 +87,6 @@ def render():
                 continue
             w = RuleWriter(r["names"])
             ents.append("  { name := %s, arity := %d, out :=\n    %s }" % (L.s(r["name"]), r["arity"], w.expr(r[fam])))
-        lines.append("def %s : List Rule := [\n%s]\n" % (fam, ",\n".join(ents)))
+        lines.append("def %s : List Rule := [\n%s]\n" % ({"variable": "variableFam"}.get(fam, fam), ",\n".join(ents)))
     lines.append("end UflVerif.Gen.DerivRules\n")
     return "\n".join(lines), recs
